@@ -85,7 +85,9 @@ func gen(rng *rand.Rand, w *vh.World, repo string, n int) tcase {
 		}
 		tc.query = ""
 	case 2: // unknown content type
-		tc.ct = []string{"application/json", "text/plain", "application/vnd.oci.image.config.v1+json", "application/vnd.docker.distribution.manifest.v1+json", "application/vnd.oci.artifact.manifest.v1+json"}[rng.Intn(5)]
+		tc.ct = []string{"application/json", "text/plain", "application/vnd.oci.image.config.v1+json", "application/vnd.docker.distribution.manifest.v1+json", "application/vnd.oci.artifact.manifest.v1+json",
+			// values that are not media types at all: whatever parser reads them, none of them names a supported type
+			"application/json/extra", "application/", "text plain", "/json", "application/xml; a=1; a=2", "image@manifest", "application/vnd.oci.image.manifest.v1+json/x"}[rng.Intn(12)]
 		tc.class, tc.must = "unsupported-content-type", -1
 	case 3: // parameterised or upper-case content type: may
 		tc.ct = []string{mm.MT + "; charset=utf-8", strings.ToUpper(mm.MT), " " + mm.MT + " ;q=1"}[rng.Intn(3)]
